@@ -74,8 +74,8 @@ BUILT = {
          "Every accepted input (Locale, LanguageIdentifier, ExtensionsMap), every from_parts product value, every E3 state, every Script (26^4 x 16 case masks), every Region, every 2-3 letter Language and reduced-alphabet longer subtags are serialised and re-parsed; the result must equal the original; canonicalize must be idempotent.",
          "ExtensionsMap::other left empty as the property states.",
          "DESIGN.md §4 C05"),
- "C10": ("E3 explicit-state exploration of mutation histories (own BFS, cross-counted with stateright) + E4 argument sweep",
-         "explicit-state model checking: breadth-first exploration to exhaustion of all states reachable through the public mutators (finite argument menus with valid/boundary/invalid arguments), real value and set/map reference model in lock-step, invariants on every state and every transition",
+ "C10": ("E3 explicit-state exploration of mutation histories (own BFS, cross-counted with stateright) + E4 argument sweep + E6 exhaustive schedule exploration (shuttle DFS) of concurrent mutator histories on private values",
+         "explicit-state model checking: breadth-first exploration to exhaustion of all states reachable through the public mutators (finite argument menus with valid/boundary/invalid arguments), real value and set/map reference model in lock-step, invariants on every state and every transition; plus stateless model checking of thread interleavings (shuttle DFS over a copy of the library with std::sync rewritten) for 8 mutator histories run concurrently on private values",
          "Five harnesses (language-id fields, -u-, -t-, -x-, and a cross harness with conversions and whole-field assignment) are explored to exhaustion from default() and from parser-built values; de-duplication on full equality of (implementation value, model value); after every call the result and the no-change-on-Err rule, in every state all getters, is_empty, has_*, to_string and a re-parse are compared with the model. The unique-state count is cross-checked against stateright's BFS over the same transition function. Argument validation and normalisation is additionally checked byte-exhaustively (every string of length <= 2, boundary-class strings to length 9) for 15 functions.",
          "Trusted: the set/map reference model (DESIGN §3.2). Lists longer than the menus and more private tags than the cap are outside the bound.",
          "DESIGN.md §4 C10"),
@@ -154,7 +154,7 @@ def main():
         "notes": "All checks: ./check <ID> <quick|thorough>; exit 0 held / 1 violation / 2 build failure / 3 engine failure. See DESIGN.md.",
     }
     for e in m["engines"]:
-        e["serves_properties"] = ["C01", "C03", "C06", "C07", "C08", "C14"] if e["name"] == "E6" else [c["property_id"] for c in checks]
+        e["serves_properties"] = ["C01", "C03", "C06", "C07", "C08", "C10", "C14"] if e["name"] == "E6" else [c["property_id"] for c in checks]
     json.dump(m, open('/verif/MANIFEST.json', 'w'), indent=1)
     try:
         import jsonschema
